@@ -140,4 +140,122 @@ theorem mem_linksOf {w : World} {k : Nat} {o : Obj} (h : ObjInv w k o) {x y : St
     refine ⟨e.2, hsl, ?_⟩
     rw [r2, hsxn, stripNs_append, hk]
 
+/-! ## The clause `tracksOk` read on the model -/
+
+theorem value?_svOf (w : World) (o : Obj) (x : String) :
+    (svOf w o).value? x = (find? w.heap o.params (o.pre ++ x)).map (val w) := by
+  simp only [SV.value?, svOf, find?, List.find?_map, Option.map_map]
+  rfl
+
+/-- a visible link is a wired listener -/
+theorem link_of_mem_linksOf {w : World} {k : Nat} {o : Obj} (h : ObjInv w k o) (ho : w.objs k = some o) {x y : String}
+    (hl : (x, y) ∈ linksOf w o) :
+    ∃ ix iy l, find? w.heap o.params (o.pre ++ x) = some ix ∧ find? w.heap o.params (o.pre ++ y) = some iy ∧
+      l ∈ w.lsn ix ∧ tgt w l = some iy := by
+  obtain ⟨hx, hy, hk⟩ := (mem_linksOf h).1 hl
+  obtain ⟨e, he, hek⟩ := List.mem_map.1 hk
+  obtain ⟨sx, hsx, hsxn⟩ := (mem_shortNames h).1 hx
+  obtain ⟨ty, hty, htyn⟩ := (mem_shortNames h).1 hy
+  obtain ⟨s, t, y', hs, ht, hsn, htn, hid, hsl, htg⟩ := h.link ho he
+  have py : Plain y := by
+    obtain ⟨z, hz, pz⟩ := h.plain ty hty
+    have : z = y := append_left_cancel' (hz.symm.trans htyn)
+    exact this ▸ pz
+  have py' : Plain y' := by
+    obtain ⟨z, hz, pz⟩ := h.plain t ht
+    have : z = y' := append_left_cancel' (hz.symm.trans htn)
+    exact this ▸ pz
+  obtain ⟨e1, e2⟩ := aliasId_inj py' py (hid.symm.trans hek)
+  subst e2
+  refine ⟨s, t, e.2, (find?_iff h.nodup).2 ⟨hs, by rw [hsn, e1]⟩, (find?_iff h.nodup).2 ⟨ht, htn⟩, hsl, htg⟩
+
+/-- `y` is reached from `x` through visible links that are in sync in the view -/
+inductive SyncPathV (s : SV) : String → String → Prop
+  | refl (x : String) : SyncPathV s x x
+  | step {x y z : String} : (x, y) ∈ s.links → s.synced (x, y) = true → SyncPathV s y z → SyncPathV s x z
+
+theorem SyncPathV.trans {s : SV} {x y z : String} (p : SyncPathV s x y) (q : SyncPathV s y z) : SyncPathV s x z := by
+  induction p with
+  | refl => exact q
+  | step hl hs _ ih => exact SyncPathV.step hl hs (ih q)
+
+theorem SyncPathV.snoc {s : SV} {x y z : String} (p : SyncPathV s x y) (hl : (y, z) ∈ s.links) (hs : s.synced (y, z) = true) :
+    SyncPathV s x z := p.trans (SyncPathV.step hl hs (SyncPathV.refl z))
+
+/-- everything `syncedBelow` returns is reached from the initial front through in-sync links -/
+theorem syncedBelow_sound (s : SV) : ∀ (f : Nat) (front : List String) (y : String), y ∈ s.syncedBelow f front →
+    ∃ x ∈ front, SyncPathV s x y
+  | 0, front, y, hy => ⟨y, hy, SyncPathV.refl y⟩
+  | f + 1, front, y, hy => by
+    simp only [SV.syncedBelow] at hy
+    split at hy
+    · exact ⟨y, hy, SyncPathV.refl y⟩
+    · obtain ⟨x, hx, hp⟩ := syncedBelow_sound s f _ y hy
+      rcases List.mem_append.1 hx with hx | hx
+      · exact ⟨x, hx, hp⟩
+      · obtain ⟨l, hl, rfl⟩ := List.mem_map.1 hx
+        obtain ⟨hlm, hc⟩ := List.mem_filter.1 hl
+        simp only [Bool.and_eq_true, Bool.not_eq_true', List.contains_iff_mem] at hc
+        refine ⟨l.1, by simpa using hc.1.1, ?_⟩
+        exact SyncPathV.step (x := l.1) (y := l.2) (by cases l; exact hlm) (by cases l; exact hc.1.2) hp
+
+/-- a view path in sync is a world path in sync -/
+theorem syncPath_of_view {w : World} {k : Nat} {o : Obj} (h : ObjInv w k o) (ho : w.objs k = some o) {x y : String}
+    (p : SyncPathV (svOf w o) x y) {ix : ObjId} (hx : find? w.heap o.params (o.pre ++ x) = some ix) :
+    ∃ iy, find? w.heap o.params (o.pre ++ y) = some iy ∧ SyncPath w ix iy := by
+  induction p generalizing ix with
+  | refl x => exact ⟨ix, hx, SyncPath.refl ix⟩
+  | @step a b c hl hs _ ih =>
+    obtain ⟨ia, ib, l, ha, hb, hla, htg⟩ := link_of_mem_linksOf h ho hl
+    rw [hx] at ha; cases ha
+    obtain ⟨ic, hc, pc⟩ := ih hb
+    refine ⟨ic, hc, SyncPath.step hla htg ?_ pc⟩
+    simp only [SV.synced, value?_svOf, hx, hb, Option.map_some, beq_iff_eq, Option.some.injEq] at hs
+    exact hs.symm
+
+/-- **`tracksOk` holds of the model** for `setParameterValue`: the clause the driver evaluates on the
+implementation's views is a consequence of `Step` (`alias_tracks_direct` / `alias_tracks_chain`) -/
+theorem tracksOk_setv {w : World} (h : Inv w) {k : Nat} {o : Obj} (ho : w.objs k = some o) (n : String) (v : Rat)
+    (ok : (apSetParameterValue w k n v).err = none) :
+    tracksOk (svOf w o) (svOf (apSetParameterValue w k n v).w o) = true := by
+  have hi := h.obj k o ho
+  have sb := (update_sameBut w k).1 n v
+  set w' := (apSetParameterValue w k n v).w with hw'
+  have hfind : ∀ z, find? w'.heap o.params z = find? w.heap o.params z := fun z => sb.find? o.params z
+  -- the underlying `Step`
+  obtain ⟨i0, hstep⟩ : ∃ i0, Step v w w' := by
+    simp only [apSetParameterValue, ho, setParameterValue] at ok hw'
+    cases hf : find? w.heap o.params (o.pre ++ n) with
+    | none => simp [hf] at ok
+    | some i =>
+      simp only [hf] at ok hw'
+      exact ⟨i, by rw [hw']; exact (setValue_step w i v ok).1⟩
+  simp only [tracksOk, List.all_eq_true, Bool.or_eq_true, beq_iff_eq]
+  intro x hx
+  by_cases hsame : (svOf w o).value? x = (svOf w' o).value? x
+  · exact Or.inl hsame
+  right
+  intro y hy
+  -- `x` is a parameter whose value changed
+  have hxs : x ∈ shortNames w o := by simpa [SV.shorts, SV.short, svOf, shortNames] using hx
+  obtain ⟨ix, hix, hixn⟩ := (mem_shortNames hi).1 hxs
+  have hfx : find? w.heap o.params (o.pre ++ x) = some ix := (find?_iff hi.nodup).2 ⟨hix, hixn⟩
+  have hchg : val w' ix ≠ val w ix := by
+    intro e
+    apply hsame
+    rw [value?_svOf, value?_svOf, hfind, hfx]
+    simp only [Option.map_some, e]
+  -- `y` is reached from a child of `x`
+  obtain ⟨c, hc, hp⟩ := syncedBelow_sound (svOf w o) _ _ y hy
+  have hcl : (x, c) ∈ linksOf w o := by
+    simp only [SV.children, List.mem_map, List.mem_filter, beq_iff_eq] at hc
+    obtain ⟨l, ⟨hl, hl1⟩, hl2⟩ := hc
+    cases l; simp only at hl1 hl2; subst hl1 hl2; exact hl
+  obtain ⟨ix', ic, l, hx', hcf, hlx, htg⟩ := link_of_mem_linksOf hi ho hcl
+  rw [hfx] at hx'; cases hx'
+  obtain ⟨iy, hyf, py⟩ := syncPath_of_view hi ho hp hcf
+  have := hstep.tracks_chain hlx htg py hchg
+  rw [value?_svOf, value?_svOf, hfind, hfind, hyf, hfx]
+  simp only [Option.map_some, this]
+
 end Bpp.Alias
